@@ -1,7 +1,8 @@
 import SqlObjVerif.Lemmas.OrmVal
 import SqlObjVerif.Lemmas.OrmValXSync
 import SqlObjVerif.Lemmas.OrmValXSet
-import SqlObjVerif.Lemmas.OrmValXSetKw
+import SqlObjVerif.Lemmas.OrmValXSetAll
+import SqlObjVerif.Lemmas.OrmValCols
 /-!
 # C16 — lazy updates: nothing written before sync, exactly the pending values after
 
@@ -383,21 +384,66 @@ theorem C16_translated_setValue_eq_model (cfg : Cfg) (i : Iface) (s : State) (h 
   setValueX_eq cfg i s h o cv fail c inp ho hrep hc hi hbad
 
 open SqlObjVerif.PyMain in
-/-- `set(<c>=value)` (ONE keyword; lazy and eager branch) = `opSet`: the keyword filter, the validation loop, the
-    lazy `_SO_createValues.update(kw)` (merge, not replace), the eager sorted single UPDATE, caching after success -/
+/-- `set(**kw)` for ANY number of keywords (distinct column names; any mix of valid and rejected values; lazy and
+    eager branch; refused UPDATE) = `opSet`: the keyword filters, the validation loop (first rejected value raises
+    `Invalid` before anything is changed), lazy: the shown values cached, `_SO_createValues.update(kw)` (merge, not
+    replace), dirty iff a keyword was given; eager: ONE UPDATE with the values sorted by creation order, the shown
+    values cached only after it succeeded and only when the class caches; the lock released on every path -/
+theorem C16_translated_set_eq_model (cfg : Cfg) (i : Iface) (s : State) (h : Hnd) (o : Inst) (cv : Pend)
+    (fail : Bool) (kvs : List (Col × Inp)) (ho : s.objs h = some o) (hrep : Rep cv o.pending)
+    (hcols : colsOk (cfg.ncols o.cls) kvs = true) (hkw : (kvs.map (·.1)).Nodup) (hi : i.Ok cfg o.cls)
+    (hbad : ∀ e ∈ kvs, e.2 = .bad → i.hasFrom e.1 = true) :
+    absUnit o.cls o.id h (setX o.cls o.id (cfg.ncols o.cls) h (absW cfg i s o cv fail) kvs) =
+      some (opSet cfg s h kvs fail) :=
+  setX_eq cfg i s h o cv fail kvs ho hrep hcols hkw hi hbad
+
+open SqlObjVerif.PyMain in
+/-- `set(**kw)` with a keyword that is NOT a column (nor a class attribute): `TypeError` (`badCol`), nothing changed,
+    the lock released — lazy branch: refused before anything is changed; eager branch: after the validation loop.
+    The hand model reports `badCol` before it validates, the code validates the column keywords first: hence the
+    hypothesis that those are valid (with a rejected column value the code raises `Invalid` instead). -/
+theorem C16_translated_set_badcol_eq_model (cfg : Cfg) (i : Iface) (s : State) (h : Hnd) (o : Inst) (cv : Pend)
+    (fail : Bool) (kvs : List (Col × Inp)) (ho : s.objs h = some o) (hrep : Rep cv o.pending)
+    (hcols : colsOk (cfg.ncols o.cls) kvs = false) (hkw : (kvs.map (·.1)).Nodup) (hi : i.Ok cfg o.cls)
+    (hok : ∀ e ∈ kvs, e.1 < cfg.ncols o.cls → e.2 ≠ .bad)
+    (hattr : ∀ e ∈ kvs, cfg.ncols o.cls ≤ e.1 → i.classAttr e.1 = false) :
+    absUnit o.cls o.id h (setX o.cls o.id (cfg.ncols o.cls) h (absW cfg i s o cv fail) kvs) =
+      some (opSet cfg s h kvs fail) :=
+  setX_badcol cfg i s h o cv fail kvs ho hrep hcols hkw hi hok hattr
+
+open SqlObjVerif.PyMain in
+/-- instance: one keyword -/
 theorem C16_translated_set1_eq_model (cfg : Cfg) (i : Iface) (s : State) (h : Hnd) (o : Inst) (cv : Pend)
     (fail : Bool) (c : Col) (inp : Inp) (ho : s.objs h = some o) (hrep : Rep cv o.pending)
     (hc : c < cfg.ncols o.cls) (hi : i.Ok cfg o.cls) (hbad : inp = .bad → i.hasFrom c = true) :
     absUnit o.cls o.id h (setX o.cls o.id (cfg.ncols o.cls) h (absW cfg i s o cv fail) [(c, inp)]) =
       some (opSet cfg s h [(c, inp)] fail) :=
-  setX1_eq cfg i s h o cv fail c inp ho hrep hc hi hbad
+  setX_eq cfg i s h o cv fail [(c, inp)] ho hrep (by simp [colsOk, hc]) (by simp) hi
+    (by intro e he; simp at he; subst he; exact hbad)
 
 open SqlObjVerif.PyMain in
-/-- `set()` without keywords = `opSet … []`: nothing changes, nothing is sent -/
+/-- instance: `set()` without keywords changes nothing and sends nothing -/
 theorem C16_translated_set0_eq_model (cfg : Cfg) (i : Iface) (s : State) (h : Hnd) (o : Inst) (cv : Pend)
-    (fail : Bool) (ho : s.objs h = some o) (hrep : Rep cv o.pending) :
+    (fail : Bool) (ho : s.objs h = some o) (hrep : Rep cv o.pending) (hi : i.Ok cfg o.cls) :
     absUnit o.cls o.id h (setX o.cls o.id (cfg.ncols o.cls) h (absW cfg i s o cv fail) []) = some (opSet cfg s h [] fail) :=
-  setX0_eq cfg i s h o cv fail ho hrep
+  setX_eq cfg i s h o cv fail [] ho hrep (by simp [colsOk]) (by simp) hi (by simp)
+
+/-! For every REACHABLE state (any operations, raw SQL included) the structural side conditions are discharged
+by `anyReach_cols` (`Lemmas/OrmValCols.lean`); `_SO_setValue` and `set` need none. -/
+
+open SqlObjVerif.PyMain in
+theorem C16_translated_syncUpdate_reachable (cfg : Cfg) (i : Iface) (s : State) (hs : AnyReach cfg s) (h : Hnd)
+    (o : Inst) (cv : Pend) (fail : Bool) (ho : s.objs h = some o) (hrep : Rep cv o.pending) :
+    absUnit o.cls o.id h (syncUpdateX o.cls o.id (cfg.ncols o.cls) h (absW cfg i s o cv fail)) =
+      some (opSyncUpdate s h fail) :=
+  syncUpdateX_eq cfg i s h o cv fail ho hrep (anyReach_cols cfg s hs h o ho).pend
+
+open SqlObjVerif.PyMain in
+theorem C16_translated_sync_reachable (cfg : Cfg) (i : Iface) (s : State) (hs : AnyReach cfg s) (h : Hnd) (o : Inst)
+    (cv : Pend) (fail : Bool) (ho : s.objs h = some o) (hrep : Rep cv o.pending)
+    (hn : cfg.ncols o.cls ≠ 0) (hi : i.Ok cfg o.cls) :
+    absUnit o.cls o.id h (syncX o.cls o.id (cfg.ncols o.cls) h (absW cfg i s o cv fail)) = some (opSync cfg s h fail) :=
+  syncX_eq cfg i s h o cv fail ho hrep (anyReach_cols cfg s hs h o ho).pend (anyReach_cols cfg s hs h o ho).attrs hn hi
 
 /-- non-vacuity: the hypotheses hold for a lazy instance with pending values kept in insertion order -/
 example : Rep [(2, some 5), (0, none)] [(0, none), (2, some 5)] := ⟨by decide, by decide⟩
